@@ -2,6 +2,7 @@
 C17 — Collections and datatypes are isolated from each other (frame theorems).
 -/
 import Orda.Proofs.ServerContract
+import Orda.Proofs.ResetPurge
 namespace Orda.Props.C17
 open Orda
 
@@ -47,5 +48,23 @@ theorem reset_removes_exactly (st : Store) (name : String) (c : CollectionDoc) (
 theorem collection_numbers_fresh (st : Store) (name : String) (h : ColNumInv st) (hnew : st.getCollection name = none) :
     (∀ c ∈ st.collections, c.num ≠ (st.makeCollection name).2) ∧ ColNumInv (st.makeCollection name).1 :=
   ⟨makeCollection_fresh st name h hnew, colNumInv_makeCollection st name h⟩
+
+/-- after a reset, a client all of whose records were in the reset collection is unknown to the server … -/
+theorem reset_purges_the_collections_clients {st : Store} {name : String} {c : CollectionDoc} (h : st.getCollection name = some c)
+    (cuid : String) :
+    (st.resetCollection name).getClient cuid = none ↔ ∀ x ∈ st.clients, x.cuid = cuid → x.colNum = c.num :=
+  RP.reset_purges_clients_iff h cuid
+
+/-- … its requests are refused as a whole, for every collection name and every pack list, and change nothing … -/
+theorem purged_client_is_not_served {st : Store} {name : String} {c : CollectionDoc} (h : st.getCollection name = some c)
+    (cuid : String) (hall : ∀ x ∈ st.clients, x.cuid = cuid → x.colNum = c.num) (colName : String) (packs : List Pack) :
+    (st.resetCollection name).processPushPull colName cuid packs = (st.resetCollection name, .rpcErr 5, [], []) :=
+  RP.purged_client_is_refused h cuid hall colName packs
+
+/-- … while the clients of the other collections are found exactly as before -/
+theorem reset_keeps_the_other_collections_clients {st : Store} {name : String} {c : CollectionDoc} (h : st.getCollection name = some c)
+    {cuid : String} {cl : ClientDoc} (hg : st.getClient cuid = some cl) (hc : cl.colNum ≠ c.num) :
+    (st.resetCollection name).getClient cuid = some cl :=
+  RP.reset_keeps_other_clients h hg hc
 
 end Orda.Props.C17
